@@ -174,6 +174,24 @@ def run(facts, cg):
                         if outcome in OK_OUTCOMES and not wrote:
                             skipped.append(b_.blocks[bi]['term']['loc'])
                 Explorer(b, Turn(), start=tgt).run()
+        # ... and the feed turns a chunk down for one reason only: the clone index does not want it.  No success exit before the
+        # index was asked (a side table that says "nothing of this size is missing" can be wrong; the chunk is not asked for again)
+        rm_blocks = {bi for bi, t in b.calls() if 'q' in t['callee'] and callee_q(t) == IDX_REMOVE}
+        early = []
+
+        class Asked(Rule):
+            init = False
+
+            def on_term(self_, b_, bi, t, asked):
+                return True if bi in rm_blocks else asked
+
+            def on_exit(self_, b_, bi, asked, outcome):
+                if outcome in OK_OUTCOMES and not asked:
+                    early.append(b_.blocks[bi]['term']['loc'])
+        Explorer(b, Asked()).run()
+        if early:
+            finding('R-WRITE-ON-REMOVE', b.q, 'refused-before-lookup', 'the feed can report success (%s) without having asked the clone index for the chunk: a chunk the output '
+                    'still needs is turned down on other grounds and never written' % early[0])
         instances.append({'rule': 'R-WRITE-ON-REMOVE', 'function': b.q, 'removed_location_dispatches': len(some_edges), 'offset_loops': len(heads),
                           'success_exits_with_unwritten_location': len(r.violations), 'loop_turns_without_write': len(skipped)})
         if not heads:
